@@ -56,6 +56,11 @@ def gen(run_seed: int, tier: str) -> dict:
         if dirs0:
             pats = t.sample(["*.py", "*.ts", "*.js", "helpers*", "utils*", "index*", "*_f1*", "*_f2*", "*_f3*"], 1 + t.draw(3, "npat"), "pats")
             world.setdefault("extra", {})[t.pick(dirs0, "ign_dir") + "/.thailintignore"] = "\n".join(pats) + "\n"
+    if t.chance(1, 3, "root_ignore"):
+        # a root ignore file from the start: directory patterns (trailing slash) and globs, in effect for every call
+        dirs1 = sorted({f.split("/")[0] for f in world["files"] if "/" in f} | {"/".join(f.split("/")[:2]) for f in world["files"] if f.count("/") >= 2})
+        pats = t.sample([d + "/" for d in dirs1] + ["*.rs", "index*", "build/"], 1 + t.draw(2, "nrootpat"), "rootpats")
+        world.setdefault("extra", {}).setdefault(".thailintignore", "".join(p + "\n" for p in pats))
     files = dict(world["files"])            # generation-time model of the tree
     ndup, nstr = 3, 3
     ctor0 = t.pick(["linter", "linter", "linter_cfg", "orch", "orch_cfg"], "ctor")
